@@ -828,11 +828,7 @@ func doTamper(t *testing.T, x *ctxT) {
 			}
 		}
 		D := len(c.Delivered)
-		mImpl := m // the package implements CBC x etm as CBC: forge for what it implements
-		if m.Class == "CBCEtM" {
-			mImpl.Class, mImpl.Aad = "CBC", 0
-		}
-		other, err := NewRef(mImpl, mkKeys(m, rng, nil)) // foreign keys
+		other, err := NewRef(m, mkKeys(m, rng, nil)) // well-framed packets under foreign keys
 		if err != nil {
 			t.Fatal(err)
 		}
@@ -1004,10 +1000,11 @@ func doFuzz(t *testing.T, x *ctxT) {
 	pads := []byte{0, 1, 3, 4, 5, 8, 16, 254, 255}
 	var stats struct{ random, targeted, corrupt, over, delivered int }
 	for mi, m := range allModes() {
-		// the package implements CBC x etm as CBC; the streams are crafted for what it implements
-		mImpl := m
+		// CBC x -etm MAC: headers are crafted in the -etm layout and, additionally, in the
+		// encrypt-and-MAC layout the package used before 78606fd (whichever it implements, both must be handled)
+		mAlt := m
 		if m.Class == "CBCEtM" {
-			mImpl.Class, mImpl.Aad = "CBC", 0
+			mAlt.Class, mAlt.Aad = "CBC", 0
 		}
 		rng := vutil.Rand(int64(300000 + mi))
 		k := mkKeys(m, rng, nil)
@@ -1032,12 +1029,12 @@ func doFuzz(t *testing.T, x *ctxT) {
 			}
 			for _, pd := range pads {
 				for ti, tail := range []int{0, 37, 5000, -1, 5000, -1} {
-					mCraft := mImpl
+					mCraft := m
 					if ti >= 4 {
 						if m.Class != "CBCEtM" {
 							continue
 						}
-						mCraft = m // also the standard -etm layout (length in clear)
+						mCraft = mAlt
 					}
 					ref, err := NewRef(mCraft, k)
 					if err != nil {
